@@ -15,7 +15,7 @@ PROPERTY = "C02"
 RULE = ("caption sets of 1-2 languages x 1-6 sorted, non-overlapping captions (TEXT/BREAK nodes, "
         "no layouts) with boundary-biased integer-microsecond instants in [0,24h) or the float "
         "instants SCCReader returns for generated timecodes, runs of 1-3 identical timespans; "
-        "every writer (SRT, WebVTT+lang, DFXP+force, legacy, single-position, SAMI, MicroDVD) "
+        "every writer (SRT, WebVTT+lang, DFXP+force - the code also spelled in another case, which names no language of the set -, legacy, single-position, SAMI, MicroDVD) "
         "with generated options; output parsed by the independent parser of the format under a "
         "strict lexical pattern. (ms-sweep) every millisecond of [0,2min) (thorough [0,2h)) and "
         "+-2s around each hour boundary through SRT/WebVTT/DFXP. Non-trivial: some instant >= 1 "
@@ -96,6 +96,9 @@ def case_strategy(tier):
                     l["cues"][k] = dict(l["cues"][k], end=min(gen.DAY - 1, l["cues"][k]["end"] + draw(
                         st.sampled_from([gen.SEC, gen.MIN, gen.HOUR, 2 * gen.HOUR]))))
         case = {"writer": w, "set": s, "opts": opts, "lang": pick}
+        if pick and w in ("dfxp", "dfxp-single") and draw(st.integers(0, 3)) == 0:
+            # the option value spells the language code in another case
+            case["lang_spelling"] = draw(st.sampled_from(["lower", "upper"]))
         if draw(st.integers(0, 3)) == 0:
             # the writer object has been used before, on another set
             case["prev"] = draw(set_strategy(multi))
@@ -190,7 +193,13 @@ def check_case(case, rec):
         if w == "webvtt":
             out = writer.write(cs, lang=lang) if lang else writer.write(cs)
         elif w.startswith("dfxp"):
-            out = writer.write(cs, force=lang) if lang else writer.write(cs)
+            force = lang
+            if lang and case.get("lang_spelling"):
+                v = lang.lower() if case["lang_spelling"] == "lower" else lang.upper()
+                if v not in codes:
+                    force = v
+                    rec.label("force-in-other-case")
+            out = writer.write(cs, force=force) if force else writer.write(cs)
         else:
             out = writer.write(cs)
 
@@ -201,6 +210,15 @@ def check_case(case, rec):
         langs_written = [l for l in m["langs"] if l["code"] == (lang or codes[0])]
     elif w.startswith("dfxp") and lang:
         langs_written = [l for l in m["langs"] if l["code"] == lang]
+        if force != lang:
+            # a code that names no language of the set as spelled: every language is written
+            # (a case-insensitive match that writes just that language, completely, is accepted)
+            try:
+                n_div = len(P.parse_dfxp(out)["divs"])
+            except P.RefParseError as e:
+                raise Violation(f"{w} output is not well-formed: {e}")
+            if n_div != 1 or len(m["langs"]) == 1:
+                langs_written = m["langs"]
     exp = []
     for l in langs_written:
         exp.append([(_floor_units(c["start"], unit, is_float), _floor_units(c["end"], unit, is_float))
